@@ -185,9 +185,15 @@ func (p *Parser) parseSliceExpression() (ASTNode, error) {
 	current := p.current()
 	for current != tRbracket && index < 3 {
 		if current == tColon {
+			if index == 2 {
+				return ASTNode{}, p.syntaxError("Too many colons in slice expression")
+			}
 			index++
 			p.advance()
 		} else if current == tNumber {
+			if parts[index] != nil {
+				return ASTNode{}, p.syntaxError("Expected tColon or tRbracket, received: " + p.current().String())
+			}
 			parsedInt, err := strconv.Atoi(p.lookaheadToken(0).value)
 			if err != nil {
 				return ASTNode{}, err
